@@ -208,6 +208,13 @@ def class_of(self, t):
 def get_attr(self, base, name, fr, node=None):
     k = (base.key, name)
     at0 = base.single_atom()
+    if at0 is not None and at0.kind == 'record':
+        for f_, v_ in at0.args[1]:
+            if f_ == name:
+                return v_
+    if at0 is not None and at0.kind == 'ite' and all(x.single_atom() is not None and x.single_atom().kind == 'record'
+                                                      for x in at0.args[1:]):
+        return T.mk_ite(at0.args[0], self.get_attr(at0.args[1], name, fr, node), self.get_attr(at0.args[2], name, fr, node))
     if at0 is not None and at0.kind == 'sym' and not name.startswith('__') and fr is not None and len(self.frames) == 1 \
             and len(self.pc) == fr.base_len and not self.loops:
         self.deref_syms.add(at0.args[0])        # an attribute of it was read unconditionally: from here on it is not None
@@ -394,6 +401,11 @@ def binop(self, op, a, b):
         sa = a.single_atom()
         if sa is not None and sa.kind == 'list' and b.const() is not None and b.const().denominator == 1:
             return T.mk_tuple(sa.args * int(b.const()), 'list')
+        for x_, y_ in ((a, b), (b, a)):
+            xa_ = x_.single_atom()
+            if xa_ is not None and xa_.kind == 'list' and len(xa_.args) == 1 and T._numeric_like(y_):
+                # [v] * n: a list of n items, every one of them v
+                return Term.of(Atom('replicate', xa_.args[0], y_))
         return a * b
     if isinstance(op, ast.Div):
         return a / b
